@@ -36,6 +36,7 @@ func c05(tier string) []*explore.Scenario {
 	// (c) id allocation under concurrent starts: the C01 drivers (wire oracle reports duplicate ids)
 	out = append(out, donors("C05", c01(tier))...)
 	out = append(out, donors("C05", []*explore.Scenario{c02One([]streamCase{{"Bidi", "pingpong", "echo", 1, 0, 0}, {"Bidi", "pingpong", "echo", 1, 0, 0}}, 64, 2)})...)
+	out = append(out, c05FailedWrite(2), c05FailedWrite(1))
 	n := 10000
 	if tier == "thorough" {
 		n = 100000
@@ -269,6 +270,36 @@ func c05History(n int) *explore.Scenario {
 			if r.HStarts != n {
 				vsched.Fail(fam+"|handler-count", "handler ran %d times for %d calls", r.HStarts, n)
 			}
+		},
+	}
+}
+
+// c05FailedWrite: one caller's request write fails (its context is already
+// done) while two other callers start; ids must stay distinct and the others
+// must get their own replies.
+func c05FailedWrite(bound int) *explore.Scenario {
+	fam := "C05/failed-write"
+	return &explore.Scenario{
+		Name: fmt.Sprintf("C05/failed-write/d=%d", bound), Family: fam, Prop: "C05", Bound: bound,
+		Run: func() {
+			w := env.NewWorld()
+			d := env.NewDirect(w, env.DirectOpts{Pipe: env.PipeOpts{Cap: 64}})
+			vsched.Settle()
+			vsched.Explore(true)
+			dead, cancel := context.WithCancel(context.Background())
+			cancel()
+			a, b, c := w.Rec("a", "Unary"), w.Rec("b", "Unary"), w.Rec("c", "Unary")
+			vsched.GoNamed("caller-a", func() { w.CallUnary(d.CC, dead, a, "x") })
+			vsched.GoNamed("caller-b", func() { w.CallUnary(d.CC, context.Background(), b, "x") })
+			vsched.Quiesce()
+			vsched.GoNamed("caller-c", func() { w.CallUnary(d.CC, context.Background(), c, "x") })
+			vsched.Quiesce()
+			if !a.CDone || a.CErr == nil {
+				vsched.Fail(fam+"|dead-call", "the call with a dead context: done=%v err=%v", a.CDone, a.CErr)
+			}
+			checkUnary(b, "x", fam)
+			checkUnary(c, "x", fam)
+			finishDirect(d, w, true)
 		},
 	}
 }
